@@ -66,27 +66,59 @@ fn blobs() -> Vec<Bytes> {
          Bytes::from_static(b"\xff\xff\xff\xff\xff\xff\xff\xff\x01")]
 }
 
-/// Round trip with sentinel: returns the decoded value.
+/// A reader that ends every read at the next multiple of `cap` (what a
+/// buffered file reader does at its buffer boundary): `Read::read` may
+/// return fewer bytes than asked for at any position.
+pub struct Frag<'a> { data: &'a [u8], pos: usize, cap: usize }
+
+impl<'a> std::io::Read for Frag<'a> {
+    fn read(&mut self, buf: &mut [u8]) -> std::io::Result<usize> {
+        let to_boundary = if self.cap == usize::MAX { usize::MAX } else { self.cap - self.pos % self.cap };
+        let n = buf.len().min(self.data.len() - self.pos).min(to_boundary);
+        buf[..n].copy_from_slice(&self.data[self.pos..self.pos + n]);
+        self.pos += n;
+        Ok(n)
+    }
+}
+
+thread_local! {
+    static CAPS: std::cell::RefCell<Vec<usize>> = const { std::cell::RefCell::new(Vec::new()) };
+    static DECODES: std::cell::Cell<u64> = const { std::cell::Cell::new(0) };
+}
+
+/// Round trip with sentinel, through an unfragmented reader and through
+/// readers fragmenting at every multiple of each capacity in `CAPS`.
 fn trip<T: PartialEq + std::fmt::Debug>(
     what: &str, value: &T,
     write: impl Fn(&T, &mut Vec<u8>) -> Result<(), std::io::Error>,
-    read: impl Fn(&mut &[u8]) -> Result<T, String>,
+    read: impl Fn(&mut dyn Read) -> Result<T, String>,
 ) -> Result<(), (String, String)> {
     let mut buf = Vec::new();
     write(value, &mut buf).map_err(|e| (format!("{what}:write"), format!("write failed: {e}")))?;
     let len = buf.len();
     buf.extend_from_slice(&SENTINEL);
-    let mut rd: &[u8] = &buf;
-    let back = util::catch(|| read(&mut rd))
-        .map_err(|e| (format!("{what}:panic"), format!("read panicked: {e}")))?
-        .map_err(|e| (format!("{what}:read"), format!("read of own encoding failed: {e}")))?;
-    if &back != value {
-        return Err((format!("{what}:value"), format!("wrote {value:?} read {back:?}")))
-    }
-    if rd != SENTINEL {
-        return Err((format!("{what}:consumed"), format!(
-            "reader consumed {} bytes of a {len} byte record", buf.len() - rd.len()
-        )))
+    let caps = CAPS.with(|c| c.borrow().clone());
+    for cap in std::iter::once(usize::MAX).chain(caps) {
+        // tiny fragments of very long records only repeat what the
+        // fragments of the short ones show
+        if cap < 8 && len > 4096 { continue }
+        let how = if cap == usize::MAX { String::new() } else { format!(" (reads ending at multiples of {cap})") };
+        let class = |c: &str| if cap == usize::MAX { format!("{what}:{c}") } else { format!("{what}:{c}:short-reads") };
+        let mut rd = Frag { data: &buf, pos: 0, cap };
+        DECODES.with(|d| d.set(d.get() + 1));
+        let back = util::catch(|| read(&mut rd))
+            .map_err(|e| (class("panic"), format!("read panicked{how}: {e}")))?
+            .map_err(|e| (class("read"), format!("read of own encoding failed{how}: {e}")))?;
+        if &back != value {
+            let (a, b) = (format!("{value:?}"), format!("{back:?}"));
+            let cut = |x: &str| x.chars().take(300).collect::<String>();
+            return Err((class("value"), format!("wrote {} read {}{how}", cut(&a), cut(&b))))
+        }
+        if rd.pos != len {
+            return Err((class("consumed"), format!(
+                "reader consumed {} bytes of a {len} byte record{how}", rd.pos
+            )))
+        }
     }
     Ok(())
 }
@@ -100,11 +132,23 @@ pub fn run(ctx: &Ctx) -> Report {
         sequences, 70 kB; times: epoch, +-1 s, year 1, 2038, 9999; serials \
         0, 1, 2^63, max 159 bit; blobs empty / NUL / 70 kB / all-ones \
         prefix; options both ways; ETags empty, quoted, weak; delta maps \
-        of 0, 1, 3 entries); encode, append a sentinel, decode: value \
-        equal and exactly the record consumed; non-trivial = all".into();
+        of 0, 1, 3 entries, and of 65535 / 65536 / 65537 / 70000 entries); \
+        encode, append a sentinel, decode: value equal and exactly the \
+        record consumed - through a reader that hands out everything and \
+        through readers whose every read ends at the next multiple of c \
+        bytes (c = 1, 2, 3, 5, 7, 8, 13, 16, 31, 32, 33, 64, 8192; thorough \
+        1..70 and more), so that every field is met by a short read at \
+        every offset; plus stored point files (header + 4 objects) read \
+        back through StoredPoint::load_quietly and its iterator with the \
+        first object's size swept over 500 (thorough 8492) consecutive \
+        values; non-trivial = all".into();
     let mut viol: Vec<(String, String, Value)> = Vec::new();
     let mut n = 0u64;
     let thorough = ctx.tier.thorough();
+    let caps: Vec<usize> = if thorough { (1..=70).chain([100, 255, 256, 4096, 8192]).collect() }
+        else { vec![1, 2, 3, 5, 7, 8, 13, 16, 31, 32, 33, 64, 8192] };
+    CAPS.with(|c| *c.borrow_mut() = caps.clone());
+    DECODES.with(|d| d.set(0));
 
     // StoredObject
     for u in rsync_uris() { for h in [false, true] { for c in blobs() {
@@ -115,7 +159,7 @@ pub fn run(ctx: &Ctx) -> Report {
         n += 1;
         if let Err((c, m)) = trip("StoredObject", &v,
             |v, w| v.write(w),
-            |r| StoredObject::read(r).map_err(|e| std::io::Error::from(e).to_string())?.ok_or("EOF".to_string()))
+            |mut r| StoredObject::read(&mut r).map_err(|e| std::io::Error::from(e).to_string())?.ok_or("EOF".to_string()))
         { viol.push((c, m, json!({"record": "StoredObject", "uri_len": u.as_str().len()}))); }
     }}}
     // A sequence of objects in one stream (the stored point body).
@@ -150,7 +194,7 @@ pub fn run(ctx: &Ctx) -> Report {
             n += 1;
             if let Err((c, msg)) = trip("StoredManifest", &v,
                 |v, w| v.write(w),
-                |r| StoredManifest::read(r).map_err(|e| std::io::Error::from(e).to_string()))
+                |mut r| StoredManifest::read(&mut r).map_err(|e| std::io::Error::from(e).to_string()))
             { if viol.len() < 50 { viol.push((c, msg, json!({"record": "StoredManifest"}))); } }
         }}}}
     }}}
@@ -214,16 +258,81 @@ pub fn run(ctx: &Ctx) -> Report {
                 n += 1;
                 if let Err((c, msg)) = trip("RepositoryState", &v,
                     |v, w| v.verif_compose(w),
-                    |r| RepositoryState::verif_parse(r).map_err(|e| e.to_string()))
+                    |mut r| RepositoryState::verif_parse(&mut r).map_err(|e| e.to_string()))
                 { if viol.len() < 50 { viol.push((c, msg, json!({"record": "RepositoryState"}))); } }
             }}}
         }}}
     }}
+    // Large delta-state maps around the reader's pre-allocation cap.
+    for size in [65535usize, 65536, 65537, 70000] {
+        let v = RepositoryState {
+            rpki_notify: https_uris()[0].clone(), session: Uuid::nil(), serial: 7, updated_ts: 1,
+            best_before_ts: 2, last_modified_ts: None, etag: None,
+            delta_state: (0..size as u64).map(|i| (i, rrdp::Hash::from_data(&i.to_be_bytes()))).collect(),
+        };
+        n += 1;
+        CAPS.with(|c| *c.borrow_mut() = vec![8192]);
+        if let Err((c, msg)) = trip("RepositoryState", &v,
+            |v, w| v.verif_compose(w),
+            |mut r| RepositoryState::verif_parse(&mut r).map_err(|e| e.to_string()))
+        { viol.push((format!("{c}:large-map"), format!("delta state of {size} entries: {}", msg.chars().take(200).collect::<String>()), json!({"record": "RepositoryState", "delta_state": size}))); }
+        CAPS.with(|c| *c.borrow_mut() = caps.clone());
+    }
+
+    // Stored point files read back through the real buffered file reader:
+    // the size of the first object is swept so that every later field
+    // starts at every offset relative to the reader's 8 KiB buffer.
+    {
+        let dir = ctx.scratch.join("c28-points");
+        let _ = std::fs::create_dir_all(&dir);
+        let uris = rsync_uris();
+        let hash = |b: u8| Some(ManifestHash::new(Bytes::from(vec![b; 32]), DigestAlgorithm::sha256()));
+        let header = StoredPointHeader::new(uris[0].clone(), None);
+        let mut head = Vec::new();
+        header.write(&mut head).unwrap();
+        let sizes: Vec<usize> = if thorough { (0..8192 + 300).collect() } else { (8192 - 400..8192 + 100).collect() };
+        let res = util::par_map(sizes.len() as u64, util::cores(), |i| {
+            let size = sizes[i as usize];
+            let objs = vec![
+                StoredObject::new(uris[0].clone(), Bytes::from(vec![0x11u8; size]), hash(0xa1)),
+                StoredObject::new(uris[1].clone(), Bytes::from(vec![0x22u8; 40]), hash(0xb2)),
+                StoredObject::new(uris[2].clone(), Bytes::from(vec![0x33u8; 3]), None),
+                StoredObject::new(uris[3].clone(), Bytes::from(vec![0x44u8; 9000]), hash(0xc3)),
+            ];
+            let mut buf = head.clone();
+            for o in &objs { o.write(&mut buf).unwrap(); }
+            let path = dir.join(format!("p{i}.bin"));
+            std::fs::write(&path, &buf).unwrap();
+            let r = util::catch(|| {
+                let point = routinator::store::StoredPoint::load_quietly(path.clone()).ok_or("stored point does not load".to_string())?;
+                let mut back = Vec::new();
+                for item in point {
+                    back.push(item.map_err(|e| format!("object {}: {}", back.len(), std::io::Error::from(e)))?);
+                }
+                if back != objs { return Err(format!("objects read back differ (read {} of {})", back.len(), objs.len())) }
+                Ok(())
+            }).unwrap_or_else(|p| Err(format!("panic: {p}")));
+            let _ = std::fs::remove_file(&path);
+            (size, r)
+        });
+        for (size, r) in res {
+            n += 1;
+            if let Err(e) = r {
+                if viol.len() < 50 {
+                    viol.push(("StoredPoint:file".into(), format!("stored point file whose first object has {size} bytes: {e}"), json!({"record": "stored point file", "first_object_size": size})));
+                }
+            }
+        }
+        let _ = std::fs::remove_dir_all(&dir);
+    }
     let _ = (&mut std::io::empty()).read(&mut []);
 
     rep.evaluations = n;
     rep.nontrivial = n;
-    rep.bound = format!("{n} values over 5 record types");
+    let decodes = DECODES.with(|d| d.get());
+    rep.extra.insert("decodes".into(), json!(decodes));
+    rep.extra.insert("fragment_capacities".into(), json!(caps));
+    rep.bound = format!("{n} values over 5 record types and stored point files; {decodes} decodes ({} read fragmentations each)", caps.len() + 1);
     for (class, msg, replay) in viol {
         rep.outcome(format!("VIOLATION:{class}"));
         rep.violation(format!("record:{class}"), msg, replay);
